@@ -190,7 +190,8 @@ class Recorder(object):
 
 def run_case(prog, cfg=None, faults=None, cleanups=None, hooks=False, record_events=False,
              formatters=None, keep_model=False, reporters=None, async_steps=False, texts=None,
-             step_extra=None, probe_status=False, second_run=False, second_cfg=None, reset_between=True):
+             step_extra=None, probe_status=False, second_run=False, second_cfg=None, reset_between=True,
+             after_run=None):
     """faults: {k: "exc"|"assert"} k-th hook invocation raises.
     cleanups: {trigger: [(cid, raising, layer)]}, trigger = ("hook", name, path|None) | ("step", path, idx)
     formatters: callable(config, o2p) -> list of formatter objects (in addition to the recorder)
@@ -360,6 +361,10 @@ def run_case(prog, cfg=None, faults=None, cleanups=None, hooks=False, record_eve
         except BaseException as e:          # noqa - property: nothing escapes
             obs["escaped"] = type(e).__name__
             obs["escaped_msg"] = str(e)[:200]
+        if after_run is not None:
+            # user code that is the FIRST to look at the model after the run (nothing has expanded never-reached
+            # outlines or read any status yet)
+            obs["after_run"] = after_run(feats, runner, config)
         o2p.refresh(build=True)     # expand outlines that the run never reached (after reporters/formatters ended)
         for path, obj in list(p2o.items()):
             obs["status"][path] = obj.status.name
